@@ -57,7 +57,7 @@ def cbytes2(rows, width):
 
 
 def reader_defines(kls, vls, blk, rsts=None, shs=None, sepl=None, irst=None, ver=2, pfx=0, comp=0,
-                   no_trailer=False, ckeys=None, cseps=None, ctgt=None, cq=None, cq2=None, **extra):
+                   no_trailer=False, ckeys=None, cseps=None, ctgt=None, cq=None, cq2=None, lcps=None, **extra):
     n = len(kls)
     assert sum(blk) == n and len(vls) == n
     if rsts is None:
@@ -97,6 +97,8 @@ def reader_defines(kls, vls, blk, rsts=None, shs=None, sepl=None, irst=None, ver
             if not rsts[i]:
                 assert ks[i][:shs[i]] == ks[i - 1][:shs[i]]
         d["CKEYS"] = cbytes2(ckeys, d["KLMAX"])
+    if lcps is not None:
+        d["KT"] = kt_define(kls, lcps, d["KLMAX"])
     if cseps is not None:
         ss = [bytes(x) for x in cseps]
         assert [len(x) for x in ss] == list(sepl)
@@ -116,6 +118,65 @@ def reader_defines(kls, vls, blk, rsts=None, shs=None, sepl=None, irst=None, ver
         d["CQ2"] = "{" + ",".join(str(x) for x in (list(cq2 or []) + [0] * 4)[:4]) + "}"
     d.update(extra)
     return d
+
+
+SYM, PREV = 256, 257
+
+
+def key_templates(kls, lcps, base=0x40, special=None, all_concrete=()):
+    """Byte templates for strictly increasing keys with prescribed common-prefix lengths.
+    lcps[i] (i >= 1) = length of the common prefix of key i-1 and key i that the encoder may elide.
+    Returns rows of codes (concrete 0..255 | SYM | PREV).  special: {(i, j): value} forces a value."""
+    n = len(kls)
+    lcps = [0] + list(lcps[1:]) if len(lcps) == n else [0] + list(lcps)
+    assert len(lcps) == n
+    code = [[SYM] * kls[i] for i in range(n)]
+    conc = [[False] * kls[i] for i in range(n)]
+    for i in range(1, n):
+        L = lcps[i]
+        assert L <= min(kls[i - 1], kls[i])
+        for j in range(L):
+            code[i][j] = PREV
+            # every byte a comparison looks at must be concrete: symex propagates constants, not
+            # equalities between symbols, so a symbolic shared prefix would not fold
+            conc[i][j] = True
+        if L < kls[i - 1]:
+            assert L < kls[i], "key %d would not be greater than key %d" % (i, i - 1)
+            conc[i - 1][L] = True
+            conc[i][L] = True
+        else:
+            assert kls[i] > L, "equal keys"
+    # entries that are added twice are compared with themselves: every byte concrete
+    for i in all_concrete:
+        for j in range(kls[i]):
+            conc[i][j] = True
+    # a concrete position that is a copy forces its source to be concrete
+    for i in range(n - 1, 0, -1):
+        for j in range(kls[i]):
+            if conc[i][j] and code[i][j] == PREV:
+                conc[i - 1][j] = True
+    val = [[None] * kls[i] for i in range(n)]
+    for i in range(n):
+        for j in range(kls[i]):
+            if code[i][j] == PREV:
+                val[i][j] = val[i - 1][j]
+            elif conc[i][j]:
+                v = (base + 2 * i + 5 * j) & 0xff if j > 0 and i in all_concrete and not (j <= (lcps[i] if i else 0)) else base + 2 * i
+                if special and (i, j) in special:
+                    v = special[(i, j)]
+                val[i][j] = v
+                code[i][j] = v
+    # sanity: decided at a concrete byte, increasing
+    for i in range(1, n):
+        L = lcps[i]
+        if L < kls[i - 1]:
+            assert val[i - 1][L] is not None and val[i][L] is not None and val[i - 1][L] < val[i][L], (i, L, val)
+    return code
+
+
+def kt_define(kls, lcps, klmax, **kw):
+    rows = key_templates(kls, lcps, **kw)
+    return cbytes2(rows, klmax)
 
 
 def cc_args(d):
